@@ -7,7 +7,7 @@
    [bids] of the identities whose lines make up the buffer, and for every attempt
    on the underlying writer a ghost [label] saying which metrics it is meant to
    carry.  Ghost data never influences the plain behaviour (results, bytes handed
-   to the underlying writer, outcomes consumed): see [WriterProofs.erasure]. The
+   to the underlying writer, outcomes consumed): see [AuditW.erasure]. The
    correspondence check compares the plain behaviour with the real code; the
    theorems use the ghost data to speak about identities instead of byte patterns.
 
